@@ -34,6 +34,7 @@ VARIABLES
   wal,         \* Seq of points; appending = acknowledged (synced) insert
   clock,       \* database clock (virtual: max ts of accepted points since open)
   up,          \* process is running
+  opened,      \* tables created in this process (CreateTable has run)
   rd,          \* [Tables -> Nat]  WAL entries read by the table's reader
   pend,        \* [Tables -> Seq]  row-store inserts of the entry in flight
   mem,         \* [Tables -> [cells, off, changed, flds]]   memstore
@@ -46,14 +47,14 @@ VARIABLES
   flds,        \* [Tables -> Seq(field id)]   table.fields
   nextFile     \* file names are timestamps: strictly increasing ids
 
-vars == <<wal, clock, up, rd, pend, mem, cur, disk, offFile, fl, flushCount,
+vars == <<wal, clock, up, opened, rd, pend, mem, cur, disk, offFile, fl, flushCount,
           where, flds, nextFile>>
 
 ----------------------------------------------------------------------------
 (* Data *)
 
-Max(a, b) == IF a >= b THEN a ELSE b
-Range(s)  == {s[i] : i \in DOMAIN s}
+Max2(a, b) == IF a >= b THEN a ELSE b
+Rng(s)  == {s[i] : i \in DOMAIN s}
 
 \* period containing ts: ends at the smallest multiple of the resolution >= ts
 PeriodOf(t, ts) == ((ts + Res[t] - 1) \div Res[t]) * Res[t]
@@ -77,15 +78,15 @@ Mains(p)    == IF p.vs = {} THEN 0 ELSE 1
 \* the cells the main / one extra row-store insert of p adds to a memstore
 \* with fields fs
 Cells(t, p, F) == SetToBag({<<Proj[t][p.k], PeriodOf(t, p.ts), f, p.id>> : f \in F})
-MainCells(t, p, fs)  == Cells(t, p, {f \in Range(fs) : Src[f] = "_point" \/ Src[f] \in p.vs})
-ExtraCells(t, p, fs) == Cells(t, p, {f \in Range(fs) : Src[f] = "_point" \/ Src[f] = "w"})
+MainCells(t, p, fs)  == Cells(t, p, {f \in Rng(fs) : Src[f] = "_point" \/ Src[f] \in p.vs})
+ExtraCells(t, p, fs) == Cells(t, p, {f \in Rng(fs) : Src[f] = "_point" \/ Src[f] = "w"})
 
 Times(B, n) == IF n = 0 THEN EmptyBag ELSE [e \in DOMAIN B |-> B[e] * n]
 
 RestrictBag(B, S) == [e \in (DOMAIN B) \cap S |-> B[e]]
 
 \* cells of fields fs only
-OnFields(B, fs) == [e \in {x \in DOMAIN B : x[3] \in Range(fs)} |-> B[e]]
+OnFields(B, fs) == [e \in {x \in DOMAIN B : x[3] \in Rng(fs)} |-> B[e]]
 
 \* Sequence.Truncate at a non-raw flush: a period ending at P survives iff
 \* P > now - retention  (seq.go:418, row_store.go:582)
@@ -109,7 +110,8 @@ DiskView(t) == OnFields(FileCells(t), flds[t])
 Init ==
   /\ wal = <<>>
   /\ clock = 0
-  /\ up = TRUE
+  /\ up = FALSE
+  /\ opened = {}
   /\ rd = [t \in Tables |-> 0]
   /\ pend = [t \in Tables |-> <<>>]
   /\ mem = [t \in Tables |-> EmptyMem(0, InitFlds[t])]
@@ -127,7 +129,7 @@ Init ==
 Insert(p) ==
   /\ up
   /\ wal' = Append(wal, p)
-  /\ UNCHANGED <<clock, up, rd, pend, mem, cur, disk, offFile, fl, flushCount,
+  /\ UNCHANGED <<clock, up, opened, rd, pend, mem, cur, disk, offFile, fl, flushCount,
                  where, flds, nextFile>>
 
 \* table.processInserts reads the next entry and decides (insert.go:95-107,
@@ -137,7 +139,7 @@ Insert(p) ==
 \* numeric value produces no row-store insert at all (insert.go:247, :256).
 NCopies(n, rec) == [i \in 1..n |-> rec]
 Decide(t) ==
-  /\ up
+  /\ up /\ t \in opened
   /\ Len(pend[t]) <= 1       \* the previous entry's last insert may still be
                             \* between the channel receive and rs.mx
   /\ rd[t] < Len(wal)
@@ -147,20 +149,20 @@ Decide(t) ==
         /\ IF Expired(t, p) \/ ~Passes(t, p)
            THEN /\ pend' = [pend EXCEPT ![t] = @ \o <<[idx |-> i, data |-> FALSE, main |-> 0, extra |-> 0]>>]
                 /\ clock' = clock
-           ELSE /\ clock' = Max(clock, p.ts)               \* insert.go:190
+           ELSE /\ clock' = Max2(clock, p.ts)               \* insert.go:190
                 /\ pend' = [pend EXCEPT ![t] = @ \o
                      IF Mains(p) = 0 THEN <<>>
                      ELSE IF SplitApply
                      THEN <<[idx |-> i, data |-> TRUE, main |-> 1, extra |-> 0]>>
                           \o NCopies(Extras(p), [idx |-> i, data |-> TRUE, main |-> 0, extra |-> 1])
                      ELSE <<[idx |-> i, data |-> TRUE, main |-> 1, extra |-> Extras(p)]>>]
-  /\ UNCHANGED <<wal, up, mem, cur, disk, offFile, fl, flushCount, where, flds, nextFile>>
+  /\ UNCHANGED <<wal, up, opened, mem, cur, disk, offFile, fl, flushCount, where, flds, nextFile>>
 
 \* rowStore.processInserts, case insert (row_store.go:287-295): under rs.mx the
 \* offset of the entry is recorded together with the row update.  Not enabled
 \* while the same goroutine runs a flush.
 Apply(t) ==
-  /\ up
+  /\ up /\ t \in opened
   /\ pend[t] # <<>>
   /\ fl[t].pc = "idle"
   /\ LET s == Head(pend[t])
@@ -174,7 +176,7 @@ Apply(t) ==
            changed |-> TRUE,
            flds    |-> @.flds]]
   /\ pend' = [pend EXCEPT ![t] = Tail(@)]
-  /\ UNCHANGED <<wal, clock, up, rd, cur, disk, offFile, fl, flushCount, where, flds, nextFile>>
+  /\ UNCHANGED <<wal, clock, up, opened, rd, cur, disk, offFile, fl, flushCount, where, flds, nextFile>>
 
 ----------------------------------------------------------------------------
 (* Flush protocol, all inside the row-store goroutine (row_store.go:253-283,
@@ -183,13 +185,13 @@ Apply(t) ==
 
 \* rs.fields are the output fields of the new file
 FlushBegin(t, sorted) ==
-  /\ up
-  /\ fl[t].pc = "idle"
-  /\ mem[t].cells # EmptyBag
+  /\ up /\ t \in opened
+  /\ \/ fl[t].pc = "idle" /\ mem[t].cells # EmptyBag
+     \/ fl[t].pc = "pre" /\ ~sorted          \* the flush an Alter forces
   /\ LET noRaw == (flushCount[t] % TruncEvery) = TruncEvery - 1     \* :378
      IN fl' = [fl EXCEPT ![t] = [pc |-> "begun", noRaw |-> noRaw, sorted |-> sorted]]
   /\ flushCount' = [flushCount EXCEPT ![t] = @ + 1]
-  /\ UNCHANGED <<wal, clock, up, rd, pend, mem, cur, disk, offFile, where, flds, nextFile>>
+  /\ UNCHANGED <<wal, clock, up, opened, rd, pend, mem, cur, disk, offFile, where, flds, nextFile>>
 
 \* fileStore.flush (row_store.go:455-508): iterate file U memstore into a temp
 \* file whose header carries the memstore offsets and the field list.  A file
@@ -210,52 +212,52 @@ FlushContent(t, noRaw, sorted) ==
   IN rawPart (+) Truncated(t, rest, clock)
 
 FlushTemp(t) ==
-  /\ up
+  /\ up /\ t \in opened
   /\ fl[t].pc = "begun"
   /\ fl' = [fl EXCEPT ![t] = [pc |-> "temp", noRaw |-> @.noRaw, sorted |-> @.sorted,
                               file |-> [cells |-> FlushContent(t, @.noRaw, @.sorted),
                                         off   |-> mem[t].off,
                                         flds  |-> mem[t].flds]]]
-  /\ UNCHANGED <<wal, clock, up, rd, pend, mem, cur, disk, offFile, flushCount, where, flds, nextFile>>
+  /\ UNCHANGED <<wal, clock, up, opened, rd, pend, mem, cur, disk, offFile, flushCount, where, flds, nextFile>>
 
 \* fsync, close, rename into the table directory (row_store.go:410-427)
 FlushRename(t) ==
-  /\ up
+  /\ up /\ t \in opened
   /\ fl[t].pc = "temp"
   /\ disk' = [disk EXCEPT ![t] = (nextFile :> fl[t].file) @@ @]
   /\ fl' = [fl EXCEPT ![t] = [pc |-> "renamed", id |-> nextFile]]
   /\ nextFile' = nextFile + 1
-  /\ UNCHANGED <<wal, clock, up, rd, pend, mem, cur, offFile, flushCount, where, flds>>
+  /\ UNCHANGED <<wal, clock, up, opened, rd, pend, mem, cur, offFile, flushCount, where, flds>>
 
 \* swap under rs.mx (row_store.go:437-442)
 FlushSwap(t) ==
-  /\ up
+  /\ up /\ t \in opened
   /\ fl[t].pc = "renamed"
   /\ cur' = [cur EXCEPT ![t] = fl[t].id]
   /\ mem' = [mem EXCEPT ![t] = EmptyMem(@.off, disk[t][fl[t].id].flds)]
   /\ fl' = [fl EXCEPT ![t] = IdleFlush]
-  /\ UNCHANGED <<wal, clock, up, rd, pend, disk, offFile, flushCount, where, flds, nextFile>>
+  /\ UNCHANGED <<wal, clock, up, opened, rd, pend, disk, offFile, flushCount, where, flds, nextFile>>
 
 \* offset-only "flush" (row_store.go:257-264): temp file + rename in one step
 \* here; the intermediate state (temp file written, not renamed) differs from
 \* the state before only in a file outside the table directory.
 OffWrite(t) ==
-  /\ up
+  /\ up /\ t \in opened
   /\ fl[t].pc = "idle"
   /\ mem[t].cells = EmptyBag
   /\ mem[t].changed
   /\ offFile' = [offFile EXCEPT ![t] = mem[t].off]
   /\ mem' = [mem EXCEPT ![t].changed = FALSE]
-  /\ UNCHANGED <<wal, clock, up, rd, pend, cur, disk, fl, flushCount, where, flds, nextFile>>
+  /\ UNCHANGED <<wal, clock, up, opened, rd, pend, cur, disk, fl, flushCount, where, flds, nextFile>>
 
 \* removeOldFiles (row_store.go:681-725): everything but the newest two files
 RemoveOld(t) ==
-  /\ up
+  /\ up /\ t \in opened
   /\ Cardinality(DOMAIN disk[t]) > 2
   /\ LET ids  == DOMAIN disk[t]
          keep == {i \in ids : Cardinality({j \in ids : j > i}) < 2}
      IN disk' = [disk EXCEPT ![t] = [i \in keep |-> @[i]]]
-  /\ UNCHANGED <<wal, clock, up, rd, pend, mem, cur, offFile, fl, flushCount, where, flds, nextFile>>
+  /\ UNCHANGED <<wal, clock, up, opened, rd, pend, mem, cur, offFile, fl, flushCount, where, flds, nextFile>>
 
 ----------------------------------------------------------------------------
 (* Schema changes (table.go:184-192, :316-332, row_store.go:308-323) *)
@@ -264,35 +266,33 @@ RemoveOld(t) ==
 \* (queries planned from now on ask for the new fields), then the new list is
 \* handed to the row-store goroutine.
 AlterFields(t, fs) ==
-  /\ up
+  /\ up /\ t \in opened
   /\ fs # flds[t]
   /\ flds[t] = mem[t].flds          \* the previous Alter call has returned
   /\ flds' = [flds EXCEPT ![t] = fs]
-  /\ UNCHANGED <<wal, clock, up, rd, pend, mem, cur, disk, offFile, fl, flushCount, where, nextFile>>
+  /\ UNCHANGED <<wal, clock, up, opened, rd, pend, mem, cur, disk, offFile, fl, flushCount, where, nextFile>>
 
 \* rowStore.processInserts, case fieldUpdates (row_store.go:308-323):
 \* rs.fields = fields, then a non-empty memstore is flushed at once with the
 \* new fields as output fields (memstore columns are mapped by field identity,
 \* row_store.go:1000-1031), an empty one is replaced by one with the new fields.
 RSFields(t) ==
-  /\ up
+  /\ up /\ t \in opened
   /\ fl[t].pc = "idle"
   /\ mem[t].flds # flds[t]
   /\ IF mem[t].cells = EmptyBag
      THEN /\ mem' = [mem EXCEPT ![t].flds = flds[t]]
-          /\ UNCHANGED <<fl, flushCount>>
+          /\ UNCHANGED fl
      ELSE /\ mem' = [mem EXCEPT ![t].flds = flds[t],
                                 ![t].cells = OnFields(@, flds[t])]
-          /\ fl' = [fl EXCEPT ![t] = [pc |-> "begun", sorted |-> FALSE,
-                       noRaw |-> (flushCount[t] % TruncEvery) = TruncEvery - 1]]
-          /\ flushCount' = [flushCount EXCEPT ![t] = @ + 1]
-  /\ UNCHANGED <<wal, clock, up, rd, pend, cur, disk, offFile, where, flds, nextFile>>
+          /\ fl' = [fl EXCEPT ![t] = [pc |-> "pre"]]
+  /\ UNCHANGED <<wal, clock, up, opened, rd, pend, cur, disk, offFile, flushCount, where, flds, nextFile>>
 
 AlterWhere(t, w) ==
-  /\ up
+  /\ up /\ t \in opened
   /\ w # where[t]
   /\ where' = [where EXCEPT ![t] = w]
-  /\ UNCHANGED <<wal, clock, up, rd, pend, mem, cur, disk, offFile, fl, flushCount, flds, nextFile>>
+  /\ UNCHANGED <<wal, clock, up, opened, rd, pend, mem, cur, disk, offFile, fl, flushCount, flds, nextFile>>
 
 ----------------------------------------------------------------------------
 (* Crash and recovery *)
@@ -303,37 +303,46 @@ AlterWhere(t, w) ==
 Crash ==
   /\ up
   /\ up' = FALSE
+  /\ opened' = {}
   /\ UNCHANGED <<wal, clock, rd, pend, mem, cur, disk, offFile, fl, flushCount, where, flds, nextFile>>
-
-\* NewDB + CreateTable -> openRowStore (row_store.go:98-186): the newest file
-\* wins, its header offsets advanced by the offset file (:156); the WAL reader
-\* resumes after that offset (table.go:178, :307); the virtual clock restarts
-\* at zero (zenodb.go:226); the schema is the one given at open.
-Recovered(t) == IF DOMAIN disk[t] = {} THEN 0
-                ELSE CHOOSE i \in DOMAIN disk[t] : \A j \in DOMAIN disk[t] : j <= i
-Restart(ws, fss) ==
-  /\ ~up
-  /\ up' = TRUE
-  /\ clock' = 0
-  /\ cur' = [t \in Tables |-> Recovered(t)]
-  /\ LET off(t) == Max(IF Recovered(t) = 0 THEN 0 ELSE disk[t][Recovered(t)].off, offFile[t])
-     IN /\ mem' = [t \in Tables |-> EmptyMem(off(t), fss[t])]
-        /\ rd'  = [t \in Tables |-> off(t)]
-  /\ pend' = [t \in Tables |-> <<>>]
-  /\ fl' = [t \in Tables |-> IdleFlush]
-  /\ flushCount' = [t \in Tables |-> 0]
-  /\ where' = ws
-  /\ flds' = fss
-  /\ UNCHANGED <<wal, disk, offFile, nextFile>>
 
 \* Clean Close (zenodb.go:334, row_store.go:303-307): every row store does a
-\* final forced flush with whatever it has applied; here Close is only the
-\* final step after those flushes have been taken as ordinary flush actions.
+\* final forced flush with whatever it has applied (ordinary flush actions,
+\* taken before this step); Close is the final step.
 Close ==
   /\ up
-  /\ \A t \in Tables : fl[t].pc = "idle"
+  /\ \A t \in opened : fl[t].pc = "idle"
   /\ up' = FALSE
+  /\ opened' = {}
   /\ UNCHANGED <<wal, clock, rd, pend, mem, cur, disk, offFile, fl, flushCount, where, flds, nextFile>>
+
+\* NewDB (zenodb.go:193-309): with VirtualTime the clock starts at the zero time
+Start ==
+  /\ ~up
+  /\ up' = TRUE
+  /\ opened' = {}
+  /\ clock' = 0
+  /\ UNCHANGED <<wal, rd, pend, mem, cur, disk, offFile, fl, flushCount, where, flds, nextFile>>
+
+\* CreateTable -> openRowStore (table.go:97-182, row_store.go:98-186): the
+\* newest file wins, its header offsets advanced by the offset file (:156);
+\* the WAL reader resumes after that offset (table.go:178, :307); the schema
+\* is the one given now.
+Newest(t) == IF DOMAIN disk[t] = {} THEN 0
+             ELSE CHOOSE i \in DOMAIN disk[t] : \A j \in DOMAIN disk[t] : j <= i
+RecoveredOff(t) == Max2(IF Newest(t) = 0 THEN 0 ELSE disk[t][Newest(t)].off, offFile[t])
+Open(t, w, fs) ==
+  /\ up /\ t \notin opened
+  /\ opened' = opened \cup {t}
+  /\ cur' = [cur EXCEPT ![t] = Newest(t)]
+  /\ mem' = [mem EXCEPT ![t] = EmptyMem(RecoveredOff(t), fs)]
+  /\ rd'  = [rd EXCEPT ![t] = RecoveredOff(t)]
+  /\ pend' = [pend EXCEPT ![t] = <<>>]
+  /\ fl' = [fl EXCEPT ![t] = IdleFlush]
+  /\ flushCount' = [flushCount EXCEPT ![t] = 0]
+  /\ where' = [where EXCEPT ![t] = w]
+  /\ flds' = [flds EXCEPT ![t] = fs]
+  /\ UNCHANGED <<wal, clock, up, disk, offFile, nextFile>>
 
 ----------------------------------------------------------------------------
 (* Reference semantics (from the property statements, not from the code) *)
@@ -356,6 +365,6 @@ ExpectedWith(t, n, prop) ==
 Expected(t, n)  == ExpectedWith(t, n, TRUE)      \* the property (C01)
 ExpectedS(t, n) == ExpectedWith(t, n, FALSE)     \* the code, crash-free
 
-CaughtUp(t) == up /\ rd[t] = Len(wal) /\ pend[t] = <<>>
+CaughtUp(t) == up /\ t \in opened /\ rd[t] = Len(wal) /\ pend[t] = <<>>
 
 =============================================================================
